@@ -44,6 +44,7 @@ type Obligation struct {
 	Expect string // "unsat" (normal) or "sat" (cover / canary)
 	Src    string
 	Known  string // known-finding id when the clause is carved out
+	Clause *ClauseExpr // the contract clause behind an ensures obligation (for replay)
 }
 
 // Unit is the verification of one function (or one lemma).
